@@ -65,6 +65,12 @@ def oracle(script: dict, run: Any) -> List[Violation]:
         if e[3] == "start" and shutdown_at is not None and e[0] > shutdown_at[0]:
             out.append(Violation("C18/start-after-shutdown", f"a process was started at tick {e[1]} after the shutdown action was handled"))
             return out
+    # ---- the manager installs its handlers before it starts supervising: a SIGHUP / SIGINT / SIGTERM that finds no handler would
+    #      kill the manager (default action) instead of reloading / shutting down its workers
+    for e in ev:
+        if e[3] == "inject_signal" and not e[4]["handled"]:
+            out.append(Violation("C18/signal-not-handled", f"{e[4]['sig']} delivered at tick {e[1]} found no handler installed by the manager"))
+            return out
     # ---- every signal delivered to the manager's handler (and every file change) puts its action on the queue
     for i, e in enumerate(ev):
         want_type = None
